@@ -1,5 +1,6 @@
 //! Operation plans and their compact text form (used on the command line and in replay files).
 pub const ALL: usize = usize::MAX;
+pub const LASTALL: usize = 1 << 20;
 
 #[derive(Clone, Copy, Debug, PartialEq, Eq, Hash)]
 pub enum Op {
@@ -13,7 +14,8 @@ pub enum Op {
     IdsVals,
     /// `next_chunk(n)`, consume `k` items (ALL = every item), then drop the chunk
     Chunk(usize, usize),
-    /// `buffered_iter(n)`, then `j` pulls consuming `k` items of each chunk
+    /// `buffered_iter(n)`, then `j` pulls consuming `k` items of each chunk;
+    /// `k >= LASTALL`: `k - LASTALL` items of every chunk but the last pull, whose chunk is consumed completely
     Buf(usize, usize, usize),
     DrainNext,
     DrainIdVal,
@@ -34,7 +36,7 @@ impl Op {
         matches!(self, Op::DrainNext | Op::DrainIdVal | Op::DrainVals | Op::DrainIdsVals | Op::DrainChunk(_) | Op::DrainBuf(_) | Op::ForEach(_) | Op::EnumForEach(_) | Op::Fold(_))
     }
     pub fn show(&self) -> String {
-        let k = |k: usize| if k == ALL { String::new() } else { format!(":{k}") };
+        let k = |k: usize| if k == ALL { String::new() } else if k >= LASTALL { format!(":{}f", k - LASTALL) } else { format!(":{k}") };
         match *self {
             Op::Next => "N".into(),
             Op::IdVal => "I".into(),
@@ -59,7 +61,10 @@ impl Op {
     pub fn parse(s: &str) -> Result<Op, String> {
         let num = |x: &str| x.parse::<usize>().map_err(|_| format!("bad number in op '{s}'"));
         let (body, k) = match s.split_once(':') {
-            Some((b, k)) => (b, num(k)?),
+            Some((b, k)) => match k.strip_suffix('f') {
+                Some(k) => (b, LASTALL + num(k)?),
+                None => (b, num(k)?),
+            },
             None => (s, ALL),
         };
         Ok(match body {
